@@ -56,7 +56,7 @@ fn q() -> &'static UnixStr {
 }
 const AT_FDCWD_: i32 = -100;
 
-// @ob C18 quick sqe_rw fns=new_readv,new_writev,new_readv_fixed,new_writev_fixed bound="all argument values" timeout=600 nocover=1
+// @ob C18 quick sqe_rw fns=new_readv,new_writev,new_readv_fixed,new_writev_fixed bound="all argument values" timeout=600
 #[kani::proof]
 fn sqe_rw() {
     let (fd, ptr, n, ud, fl) = (any_fd(), kani::any::<usize>(), kani::any::<u32>(), kani::any::<u64>(), any_flags());
@@ -73,9 +73,10 @@ fn sqe_rw() {
     let r = raw(&unsafe { IoUringSubmissionQueueEntry::new_writev_fixed(fd, bi, a, l, ud, fl) });
     common(&r, 5, ud, fl); // IORING_OP_WRITE_FIXED
     assert!(r.fd == fd.value() && r.addr == a && r.len == l && r.buf_index == bi, "write_fixed(fd, buf, len, buf_index)");
+    kani::cover!(bi == 0xffff && l == u32::MAX && ud == u64::MAX, "extreme argument values reach the end of the harness");
 }
 
-// @ob C18 quick sqe_fs fns=new_openat,new_close,new_statx,new_unlink_at,new_rename_at,new_mkdirat bound="all argument values; directory descriptor given or AT_FDCWD" timeout=600 nocover=1
+// @ob C18 quick sqe_fs fns=new_openat,new_close,new_statx,new_unlink_at,new_rename_at,new_mkdirat bound="all argument values; directory descriptor given or AT_FDCWD" timeout=600
 #[kani::proof]
 fn sqe_fs() {
     let (ud, fl) = (kani::any::<u64>(), any_flags());
@@ -108,9 +109,11 @@ fn sqe_fs() {
     let r = raw(&unsafe { IoUringSubmissionQueueEntry::new_mkdirat(d, p(), mode, ud, fl) });
     common(&r, 37, ud, fl); // IORING_OP_MKDIRAT: fd=dfd, addr=path, len=mode
     assert!(r.fd == dfd && r.addr == p().as_ptr() as u64 && r.len == mode.bits() && r.off == 0 && r.op_flags == 0, "mkdirat(dfd, path, mode)");
+    kani::cover!(d.is_none() && ud == 7, "relative to the working directory; the end of the harness is reached");
+    kani::cover!(d.is_some() && d2.is_some() && dfd != d2.map_or(0, |f| f.value()), "two different directory descriptors");
 }
 
-// @ob C18 quick sqe_net fns=new_socket,new_connect_unix,new_accept_unix,new_accept_inet,new_sendmsg_raw,new_recvmsg,new_timeout,new_poll_add bound="all argument values" timeout=600 nocover=1
+// @ob C18 quick sqe_net fns=new_socket,new_connect_unix,new_accept_unix,new_accept_inet,new_sendmsg_raw,new_recvmsg,new_timeout,new_poll_add bound="all argument values" timeout=600
 #[kani::proof]
 fn sqe_net() {
     let (ud, fl) = (kani::any::<u64>(), any_flags());
@@ -165,6 +168,7 @@ fn sqe_net() {
     let r = raw(&IoUringSubmissionQueueEntry::new_poll_add(f, PollEvents::POLLIN, PollAddMultiFlags::empty(), ud, fl));
     common(&r, 6, ud, fl);
     assert!(r.fd == f.value() && r.op_flags & 0xffff == PollEvents::POLLIN.bits() as u32 && r.addr == 0, "poll_add(fd, events)");
+    kani::cover!(rel && cnt == u64::MAX && proto == 17, "relative timeout with the largest count; the end of the harness is reached");
 }
 
 // ------------------------------------------------------------------ (1) set-up and teardown
